@@ -362,6 +362,22 @@ func (s *session) apply(step tf.M) {
 			reps = append(reps, oracletypes.NewRawReport(99, 0, []byte("ans")))
 		case "wrongId":
 			reps[len(reps)-1].ExternalID = 99
+		case "perm": // exactly the requested ids, last first
+			for i, j := 0, len(reps)-1; i < j; i, j = i+1, j-1 {
+				reps[i], reps[j] = reps[j], reps[i]
+			}
+		case "dup": // right number, the last id is a copy of the first (not adjacent when three were requested)
+			if len(reps) > 1 {
+				reps[len(reps)-1].ExternalID = reps[0].ExternalID
+			} else { // a single requested id: the copy is one answer too many as well
+				reps = append(reps, reps[0])
+			}
+		case "dupAdj": // right number, the second id is a copy of the first
+			if len(reps) > 1 {
+				reps[1].ExternalID = reps[0].ExternalID
+			} else {
+				reps = append(reps, reps[0])
+			}
 		}
 		va, _ := s.valByName(who)
 		o := s.r.Deliver(oracletypes.NewMsgReportData(oracletypes.RequestID(id), reps, va))
@@ -462,8 +478,8 @@ func RandomScript(rng *rand.Rand) tf.Script {
 				role = "stranger"
 			}
 			shape := "exact"
-			if y := rng.Intn(10); y < 3 {
-				shape = []string{"missing", "extra", "wrongId"}[y]
+			if y := rng.Intn(12); y < 6 {
+				shape = []string{"missing", "extra", "wrongId", "perm", "dup", "dupAdj"}[y]
 			}
 			steps = append(steps, tf.M{"e": "Report", "id": id, "shape": shape,
 				"who": tf.M{"role": role, "k": 1 + rng.Intn(nval), "id": id}})
